@@ -32,7 +32,8 @@ def main():
                                stdout=subprocess.PIPE, stderr=subprocess.STDOUT, universal_newlines=True)
             lines = [l for l in p.stdout.splitlines() if l.startswith(("VIOLATION", "  clause", "KNOWN", "MACHINERY"))]
             res[pid] = p.returncode
-            print("%s exit=%d %s" % (pid, p.returncode, " | ".join(lines[:4])[:600]))
+            lines = [l for l in lines if not l.startswith("KNOWN")] + [l for l in lines if l.startswith("KNOWN")]
+            print("%s exit=%d %s" % (pid, p.returncode, " | ".join(l[:260] for l in lines[:4])))
         return 0
     finally:
         shutil.rmtree(d, ignore_errors=True)
